@@ -30,6 +30,7 @@ RULE += (" " + 'References by id are also spelled in upper case, braced and with
 RULE += (" Temporal correlation rules also use extended string conditions over rule names, with and without a rules key.")
 RULE += (" merge() receives its parts as list, tuple or one-shot iterator.")
 RULE += (" Part of every outcome is the documented order of the loaded collection (a rule comes after every rule it refers to); rule sets with skip-level references between correlation rules (the top rule names the middle rule and the rule both refer to, in either order) are fixed sets.")
+RULE += (" The answers of the loaded collection itself (get_output_rules, get_unreferenced_rules) are part of every outcome and are compared with the expected emitters.")
 ASSUMPTIONS = [
     "queries are compared as strings of the shipped TextQueryTestBackend (isolation, not semantics)",
     "rules referenced both with and without generate are not asserted (unspecified)",
@@ -136,13 +137,16 @@ def _outcome(docs, path, split, tmpdir):
                        if pos.get(id(ref.rule), -1) > pos[id(r)])
     if misplaced:
         return ("collection-order", misplaced[:3])
+    # who emits, as the loaded collection itself answers it (get_output_rules / get_unreferenced_rules): what a caller
+    # that converts rule by rule relies on
+    book = (sorted(str(r.title) for r in coll.get_output_rules()), sorted(str(r.title) for r in coll.get_unreferenced_rules()))
     try:
         out = TextQueryTestBackend().convert(coll, callback=cb)
     except SigmaError as e:
         return ("convert-error", type(e).__name__, str(e)[:80])
     except Exception as e:  # noqa
         return ("convert-exception", type(e).__name__, str(e)[:80])
-    return ("ok", sorted(out), {k: v for k, v in sorted(per_rule.items())})
+    return ("ok", sorted(out), {k: v for k, v in sorted(per_rule.items())}, book)
 
 
 def expected_emitters(docs):
@@ -223,6 +227,10 @@ def check_case(case: dict) -> Outcome:
         out.label(f"perms<={10 ** len(str(count))}")
         # emit / no-emit expectations, checked on the identity order through a dedicated conversion
         if base[0] == "ok" and not dangling:
+            for title, must in exp.items():
+                if must is not None and (str(title) in base[3][0]) != bool(must):
+                    out.fail("C09:output-bookkeeping", f"get_output_rules() of the loaded collection {'lacks' if must else 'lists'} {title}: {base[3][0]}; docs {[(d['title'], d.get('correlation', {}).get('rules'), d.get('correlation', {}).get('generate')) for d in docs]}")
+                    break
             from sigma.backends.test import TextQueryTestBackend
             from sigma.collection import SigmaCollection
             solo = {}
